@@ -51,6 +51,9 @@ def _probe_spec(rng, klass):
     for r in spec['routes']:
         sc = r['script']
         sc.update(p_enter=0.3, observe='digest', use_shared=True, use_indicator=230, sl=sc['sl'] or 0.01, tp=sc['tp'] or 0.01)
+        # the probe also asks for candles of pairs / timeframes it does not route (earlier calls of a history do route them)
+        sc['read_foreign'] = [['ETH-USDT', '1m'], ['SOL-USDT', '1m'], ['ETH-USDT', '3m'], ['SOL-USDT', '30m'], ['SOL-USDT', '3m'],
+                              ['ETH-USDT', '30m'], ['BTC-USDT', '2h'], ['ETH-USDT', '2h'], ['SOL-USDT', '2h']]
     spec['no_isolate'] = True
     spec['exchange'] = rng.choice(['Sandbox', 'Sandbox', OTHER_NAMES[0] if not spot else OTHER_NAMES[1]])
     if rng.random() < 0.35:
